@@ -97,10 +97,15 @@ func TestVerifC08(t *testing.T) {
 			genEntries := func() []c08Entry {
 				var out []c08Entry
 				nPacks := tp.Range(1, 3)
+				big := tp.Choose(5) == 0
 				for p := 0; p < nPacks; p++ {
 					pid := newID()
 					off := uint(0)
 					nb := tp.Range(1, 4)
+					if big {
+						// occasionally a large index file: the in-memory tables grow by several doublings at once
+						nb = []int{20, 70, 150, 300}[tp.Choose(4)]
+					}
 					for b := 0; b < nb; b++ {
 						var bh restic.BlobHandle
 						if len(universe) > 0 && tp.Choose(3) == 0 {
